@@ -235,10 +235,18 @@ def r2(p, rep, lockinfo):
             # (b) mutating methods are invoked only on locals freshly constructed from the class
             s = self_name(f)
             fresh = set()
+            # helpers that return a fresh copy: def _copy(self): return Cls(self)
+            copy_helpers = set()
+            for hn, h in sc.methods.items():
+                rets = [r.value for r in walk_no_nested(h.node) if isinstance(r, ast.Return) and r.value is not None]
+                if rets and all(isinstance(r, ast.Call) and (lambda rr: rr and rr[0] == "class" and rr[1] is sc)(resolve_callee(p, r, sc.module)) for r in rets) and hn not in mutating:
+                    copy_helpers.add(hn)
             for n in walk_no_nested(f.node):
                 if isinstance(n, ast.Assign) and isinstance(n.value, ast.Call):
                     r = resolve_callee(p, n.value, sc.module)
-                    if r and r[0] == "class" and r[1] is sc:
+                    is_ctor = bool(r and r[0] == "class" and r[1] is sc)
+                    is_helper = isinstance(n.value.func, ast.Attribute) and isinstance(n.value.func.value, ast.Name) and n.value.func.value.id == s and n.value.func.attr in copy_helpers
+                    if is_ctor or is_helper:
                         for t in n.targets:
                             if isinstance(t, ast.Name):
                                 fresh.add(t.id)
